@@ -34,7 +34,7 @@ EXPLANATION = (
     "application object ends in the system-error exit on every path; R15f every temporary file of a fix pass is "
     "removed or handed to the caller on every normal and exceptional path (CFG pairing with exception edges from "
     "the may-raise analysis); R15g the user's file is replaced atomically, never written in place; R15h the "
-    "'file was changed' flag survives a later fault. Not decided: that an error message is helpful; behaviour under "
+    "'file was changed' flag survives a later fault; R15i/R15j (=R13b/R13c) per-file state of rules, manager and tokenizer is reset when a file starts, on every path, so a failing file cannot leak into the next one. Not decided: that an error message is helpful; behaviour under "
     "SIGKILL between two system calls other than the write-back itself; implicit IndexError/KeyError are internal "
     "errors routed through the catch-all handlers (C01/C07), not modelled as failure sources."
 )
@@ -413,6 +413,12 @@ def r15g(ctx: Context) -> None:
         raise AnalysisError("no write-back of the user's file found in the fix path (anchor moved)")
 
 
+def _relabel(ctx: Context, rule_id: str) -> None:
+    ctx.rules[-1].rule_id = rule_id
+    for finding in ctx.rules[-1].findings:
+        finding.rule = rule_id
+
+
 def run(ctx: Context) -> None:
     ra = RaiseAnalysis(ctx.prog)
     r15a(ctx)
@@ -423,6 +429,14 @@ def run(ctx: Context) -> None:
     r15f(ctx, ra)
     r15g(ctx)
     common.fixed_flag_survives_faults(ctx, "R15h", ra)
+    from sa.rules import c13
+
+    # "every other file is processed as if the failing file were absent": state is reset when a file
+    # starts (not when the previous one ended well), so a failure cannot leak into the next file
+    c13.r13b(ctx)
+    _relabel(ctx, "R15i")
+    c13.r13c(ctx)
+    _relabel(ctx, "R15j")
     if ctx.tier == "thorough":
         from sa.rules import driver_exploration
 
